@@ -8,7 +8,18 @@ cd /verif
 git fetch -q "$clone" HEAD
 files=$(git diff --name-only "$base" FETCH_HEAD | grep -v -E '^(known_findings.json|harness/go.mod|harness/go.sum|check|setup.sh|MANIFEST.json|mkmanifest.py)$' || true)
 echo "$files" | tr '\n' ' '; echo
-[ -n "$files" ] && git checkout FETCH_HEAD -- $files
+# files changed on both sides since the base are merged three-way (git merge-file); the rest is taken as is
+for f in $files; do
+  if ! git cat-file -e "FETCH_HEAD:$f" 2>/dev/null; then git rm -q -f --ignore-unmatch "$f"; continue; fi
+  if git cat-file -e "$base:$f" 2>/dev/null && [ -f "$f" ] && ! git diff --quiet "$base" -- "$f"; then
+    case "$f" in evidence/*|coverage/*) continue;; esac
+    git show "$base:$f" > /tmp/mb_base.$$; git show "FETCH_HEAD:$f" > /tmp/mb_theirs.$$
+    if git merge-file -q "$f" /tmp/mb_base.$$ /tmp/mb_theirs.$$; then echo "merged 3-way: $f"; else echo "CONFLICT in $f (markers left in file)"; fi
+    rm -f /tmp/mb_base.$$ /tmp/mb_theirs.$$
+  else
+    git checkout FETCH_HEAD -- "$f"
+  fi
+done
 git show FETCH_HEAD:known_findings.json > /tmp/kf_builder.json
 python3 - "$shamap" <<'PY'
 import json,sys
